@@ -15,7 +15,7 @@ LM_NAMES = ["FixedLifetime", "NormalLifetime", "FoldedNormalLifetime", "LogNorma
 
 
 def time_grid(rng, tier, kind=None):
-    kind = kind or rng.choice(["unit", "const2", "const5", "const10", "howto", "uneven", "uneven", "half", "unit_long"])
+    kind = kind or rng.choice(["unit", "const2", "const5", "const10", "howto", "uneven", "uneven", "half", "unit_long", "deceptive"])
     nmax = 12 if tier == "quick" else 25
     if kind == "unit":
         n = int(rng.integers(3, nmax + 1))
@@ -28,6 +28,18 @@ def time_grid(rng, tier, kind=None):
         step = int(kind[5:])
         n = int(rng.integers(3, nmax + 1))
         return [1990 + step * i for i in range(n)], "constant"
+    if kind == "deceptive":
+        # uneven, but its end points look like an even grid: last - first == first step * (n - 1)
+        n = int(rng.integers(4, nmax + 1))
+        step0 = int(rng.integers(2, 7))
+        total = step0 * (n - 1)
+        for _ in range(50):
+            cuts = sorted(rng.choice(np.arange(1, total), size=n - 2, replace=False).tolist())
+            items = [0] + cuts + [total]
+            d_ = np.diff(items)
+            if d_[0] == step0 and len(set(d_.tolist())) > 1:
+                return [2000 + int(x) for x in items], "uneven"
+        return [2000, 2005, 2007, 2013, 2020], "uneven"
     if kind == "howto":
         return [2000, 2005, 2010, 2020, 2030], "uneven"
     if kind == "half":
@@ -82,6 +94,11 @@ def make_config(fd, rng, tier, model=None, grid_kind=None, solvable=False, n_ext
             vals = rng.uniform(0.1, 0.8, size=pshape) if (solvable or rng.random() < 0.6) else rng.uniform(0.8, 1.6, size=pshape)  # relative, scaled below
         else:  # weibull_shape
             vals = rng.uniform(0.5, 5.0, size=pshape)
+        if tl in pl and len(pl) > 1 and rng.random() < 0.3:
+            # all labels share the first cohort's value and differ only for later cohorts
+            ax = pl.index(tl)
+            v0 = np.moveaxis(vals, ax, 0)
+            v0[0, ...] = v0[0].flat[0]
         given[pn] = (pl, pdims, vals)
     # std relative to mean: make absolute using the broadcast mean
     full = {}
@@ -283,8 +300,9 @@ M16 = "dsm-structure"
 def c16_case(rec, hub, rng, tier, which):
     fd = hub.fd
     cls_name, solver = [("InflowDrivenDSM", None), ("StockDrivenDSM", "manual"), ("StockDrivenDSM", "lapack")][which % 3]
+    model = LM_NAMES[(which // 3) % 5]
     if cls_name == "StockDrivenDSM":
-        cfg, lm0 = make_solvable(fd, rng, tier)
+        cfg, lm0 = make_solvable(fd, rng, tier, model=model)
         if cfg is None:
             rec.skip(M16, "no solvable configuration found")
             return
@@ -297,7 +315,7 @@ def c16_case(rec, hub, rng, tier, which):
         tol = 1e3 * nt * EPS * kappa
         drive_attr, kind = "stock", "stock"
     else:
-        cfg = make_config(fd, rng, tier)
+        cfg = make_config(fd, rng, tier, model=model)
         nt = len(cfg["items"])
         tol = 1e-12 * nt
         kappa = 1.0
@@ -491,12 +509,12 @@ def c17_case(rec, hub, rng, tier, which):
                 if cls_name == "StockDrivenDSM":
                     nt_ = {k: np.maximum(v, cfg["truth"][k]) if k in ("mean", "weibull_scale") else v for k, v in nt_.items()}
                 kw = {}
-                mode = rng.random()
+                mode = rng.random() * (0.7 if persistent else 1.0)
                 for pn, v in nt_.items():
                     if mode < 0.35:
                         # the same parameter object as last time, its values changed in place
                         if pn not in persistent:
-                            persistent[pn] = fd.FlodymArray(dims=cfg["dims"], values=np.array(v)) if rng.random() < 0.5 else np.array(v)
+                            persistent[pn] = (fd.Parameter(dims=cfg["dims"], values=np.array(v), name=pn) if rng.random() < 0.5 else fd.FlodymArray(dims=cfg["dims"], values=np.array(v))) if rng.random() < 0.75 else np.array(v)
                         obj = persistent[pn]
                         (obj.values if isinstance(obj, fd.FlodymArray) else obj)[...] = v
                         kw[pn] = obj
@@ -579,6 +597,8 @@ def c17_system_case(rec, hub, rng, tier, i):
         lm = None if cn == "SimpleFlowDrivenStock" else lms[int(rng.integers(0, len(lms)))]
         sdefs.append(dict(name=f"stock{k}", cls=cn, solver=solver, lm=lm))
 
+    full_mean = bool(rng.random() < 0.5)
+
     def definitions():
         out = []
         for sd in sdefs:
@@ -612,7 +632,7 @@ def c17_system_case(rec, hub, rng, tier, i):
         stocks = fd.make_empty_stocks(stock_definitions=definitions(), processes=processes, dims=dims)
         params = {
             "drive": fd.Parameter(dims=dims, values=values["drive"].copy(), name="drive"),
-            "mean": fd.Parameter(dims=dims[("r",)], values=values["mean"].copy(), name="mean"),
+            "mean": fd.Parameter(dims=dims if full_mean else dims[("r",)], values=(np.tile(values["mean"], (len(items), 1)) if full_mean else values["mean"]).copy(), name="mean"),
             "spread": fd.Parameter(dims=fd.DimensionSet(dim_list=[]), values=np.array(values["spread"]), name="spread"),
         }
         return LoopMFA(dims=dims, parameters=params, processes=processes, flows={}, stocks=stocks)
@@ -623,11 +643,12 @@ def c17_system_case(rec, hub, rng, tier, i):
 
     live = build(scenario())
     n_sc = 5
+    mean_shape = (len(items), len(rdim.items)) if full_mean else (len(rdim.items),)
     for k in range(n_sc):
         sc = scenario()
         with quiet():
             live.parameters["drive"][...] = sc["drive"]
-            live.parameters["mean"][...] = sc["mean"]
+            live.parameters["mean"][...] = np.tile(sc["mean"], (len(items), 1)) if full_mean else sc["mean"]
             live.parameters["spread"][...] = sc["spread"]
             try:
                 live.compute()
